@@ -219,7 +219,7 @@ func (c *Ctx) note(s string) { c.notes[s] = true }
 func (c *Ctx) oblige(kind, desc, pos string, props []string, reach, cond Term) *Obligation {
 	// facts established at the end of a path (postconditions, frames, invariant preservation)
 	// are not needed downstream; keeping them out keeps later queries small.
-	after := kind != "post" && kind != "frame" && kind != "inv-pres"
+	after := kind != "post" && kind != "frame" && kind != "inv-pres" && kind != "assert"
 	return c.obligeX(kind, desc, pos, props, reach, cond, nil, after)
 }
 
